@@ -342,9 +342,10 @@ func genMsg(r *rand.Rand, n int, flavour string) []string {
 			kind = kindsAll[(i/7)%len(kindsAll)]
 			p = genOneX(r, kind, false, 1+(i%7-3)/2)
 		}
-		if (flavour == "tamper-auth" || flavour == "roundtrip") && i%30 == 2 {
+		if (flavour == "tamper-auth" || flavour == "roundtrip") && i%30 == 2 && i < 720 {
 			// fixed slots: each authenticated kind in turn with a byte-string payload in the 4-octet length class
-			// (where a decoder might hand out a view of its input instead of a copy)
+			// (where a decoder might hand out a view of its input instead of a copy); the first 24 slots only — every kind
+			// with every size twice — so that long runs do not fill up with 64 KiB messages and their tampered copies
 			forceRawPayload = []int{65536, 70000, 66000}[(i/120)%3]
 			p = genOne(r, kindsAll[(i/30)%4], false)
 		}
